@@ -69,7 +69,11 @@ func c18Static(c *Ctx) {
 	}
 }
 
-func buildVrace() (string, error) {
+// BuildVrace builds the race-instrumented stress program /verif/.work/bin/vrace. It is what
+// bin/setup can run ahead of time (same as: cd /verif/harness && GOFLAGS=-mod=mod GOPROXY=off
+// go build -race -o /verif/.work/bin/vrace ./cmd/vrace); the C18 suite calls it on every run,
+// which costs nothing when the binary is up to date.
+func BuildVrace() (string, error) {
 	_ = os.MkdirAll(filepath.Dir(vraceBin), 0o755)
 	// built in place: `go build` leaves an up-to-date binary alone (no relink), so only the
 	// first check after a change of /repo or of the harness pays for the instrumented build
@@ -116,7 +120,7 @@ func raceSignature(block string) (sig, where string) {
 
 func c18Race(c *Ctx) {
 	t0 := time.Now()
-	bin, err := buildVrace()
+	bin, err := BuildVrace()
 	if err != nil {
 		c.R.Note("c18: %v", err)
 		c.R.Fail("corr", "c18_vrace", "c18:vrace-build", "the race-detector stress program does not build", map[string]interface{}{"error": err.Error()})
